@@ -39,8 +39,9 @@ CLAIMED["C03"] = {
             "search modelled by its contract), contains_range ⇔ every index covered, intersects_range / intersects ⇔ a common index exists, "
             "contains(rhs) ⇔ subset, overlapped_by_iter = filter of the ranges meeting rhs (total, incl. empty operands); the models are the "
             "transliterated Rust functions run against the real code exhaustively over a small universe (every point / range / pair) and on "
-            "boundary-biased deep MOCs. Partial: fractions, percentage, range_sum = cardinality and the MOM weighted sum are tied by the "
-            "correspondence (bit-exact) but carry no theorem yet.",
+            "boundary-biased deep MOCs. Measures: range_sum = number of covered indices (rangeSum_counts); the integer pair range_fraction divides is determined by the number of "
+            "covered indices of the query — (0,1) iff none, (1,1) iff all — through the quick rejection, the binary-search start index and the accumulation loop (rangeFraction_sem); "
+            "cell count x cell size = covered indices (cellCount_sem). Partial: the final f64 division and the MOM weighted sum are tied by the correspondence (bit-exact) only.",
     "design_ref": "DESIGN.md §4 C03, §10",
     "note": TB + "; Lean Float (C double) for the last division of fraction pairs",
     "technique": "Lean 4 proof over an executable model + exhaustive small-scope differential correspondence",
